@@ -3,6 +3,7 @@
 -/
 import EpsModel.Lemmas.BlocksL
 import EpsModel.Lemmas.HeaderL
+import EpsModel.Lemmas.TopLevel
 namespace Eps.C07
 open Eps
 
@@ -90,6 +91,16 @@ theorem count_exact_full (H : B → Nat) (hH : ∀ b, H b < 2^64) (T : Ty) (name
   have := Ty.framedFull .reader T hT v hv (wHeader (T.typeHash H) (T.alignHash H) name).length [] (AlignedAll_reader _)
   simp only [List.append_nil] at this
   rw [this]; simp
+
+/-- The ε-copy deserializer likewise consumes exactly the bytes written, from any buffer whose base
+    address is a multiple of the unit of every block of the stream. -/
+theorem count_exact_eps (H : B → Nat) (hH : ∀ b, H b < 2^64) (T : Ty) (name : B) (v : Val) (base : Nat)
+    (hT : T.wf = true) (hv : T.wt v = true) (hname : validUtf8 name = true) (hlen : name.length < 2^63)
+    (hb : ∀ b ∈ T.blocks v (T.header H name).length, base % b.unit = 0) :
+    ∃ e, T.deEps H base (T.ser H name v) = .ok (e, (T.ser H name v).length) := by
+  obtain ⟨e, he, _, _⟩ := Ty.deEps_ser_append H hH T name v base [] hT hv hname hlen (aligned_of_base base T hT v _ hb)
+  simp only [List.append_nil] at he
+  exact ⟨e, he⟩
 
 /-! Non-vacuity -/
 example : (Ty.vec (.prim (.int .u64))).wf = true := by simp [Ty.wf, Ty.isZC]
